@@ -6,8 +6,13 @@ the exact result is rounded to nearest-even with a 64-bit significand and the x8
 underflow, overflow to infinity), IEEE special cases are applied, and the outcome is compared with what the
 library produced. Relations are evaluated on the exact values: NaN unordered, -0 == +0.
 
-Deliberately NOT judged (the property speaks about values): the sign of a zero result, which NaN encoding is
-returned, and which operand min/max return when one of them is NaN (only "one of the operands, or NaN").
+Zero results of + - * / and of negation must carry the IEEE 754 sign (x - x = +0 under round-to-nearest, the
+sign of a product / quotient is the xor of the operand signs, negation flips the sign of a zero too, an underflow
+to zero keeps the sign of the exact result): "correctly rounded" in the IEEE sense includes it, and 1/(-(+0))
+shows the difference as -inf versus +inf.
+Deliberately NOT judged (the property speaks about values there): the sign of a zero returned by abs / min / max,
+which NaN encoding is returned, and which operand min/max return when one of them is NaN (only "one of the
+operands, or NaN").
 
 usage: f80_oracle.py <events> --shard i/n --out result.json
 """
@@ -288,8 +293,11 @@ def main():
                     count("results_nan")
                 elif w[0] == "zero":
                     ok = g.kind == "zero"
+                    count("results_exact_zero")
                     if ok and g.s != w[1]:
                         zero_sign_diffs += 1
+                        violation("arith:%s:zero_sign" % op, line.strip(), what="a zero result carries the wrong sign (IEEE 754 round-to-nearest rules)",
+                                  got_sign=g.s, want_sign=w[1])
                 elif w[0] == "inf":
                     ok = g.kind == "inf" and g.s == w[1]
                     count("results_inf")
@@ -299,6 +307,9 @@ def main():
                     if r[0] == "zero":
                         ok = g.kind == "zero"
                         count("results_underflow_to_zero")
+                        if ok and g.s != s:
+                            zero_sign_diffs += 1
+                            violation("arith:%s:zero_sign" % op, line.strip(), what="an underflow to zero lost the sign of the exact result", got_sign=g.s, want_sign=s)
                     elif r[0] == "inf":
                         ok = g.kind == "inf" and g.s == s
                         count("results_overflow")
@@ -321,6 +332,11 @@ def main():
                     ok = g.kind == "nan"
                 elif a.kind == "zero":
                     ok = g.kind == "zero"
+                    if ok and op == "neg":
+                        count("negations_of_zero")
+                        if g.s != (a.s ^ 1):
+                            zero_sign_diffs += 1
+                            violation("neg:zero_sign", line.strip(), what="negation of a zero does not flip its sign", got_sign=g.s, want_sign=a.s ^ 1)
                 else:
                     ws = (a.s ^ 1) if op == "neg" else 0
                     ok = g.kind == a.kind and g.s == ws and (a.kind == "inf" or (g.m == a.m and g.e == a.e))
